@@ -9,8 +9,13 @@ Oracles on the implementation (public `compile`, and `compile_lex` = the same pi
      bytes of the program without them;
  (2) the log gains exactly one [ERROR] entry per offender, in source order, naming the offending text, with the 0-based
      line = number of LF before it; the remaining entries are those of the clean program;
- (3) [PRINT](line) entries carry the line of their statement, also after notes / rests / lengths followed by blank lines;
- (4) bounds: <= 100 entries, <= 30 + 1 unknown-character entries, log text <= 4096 + 3 characters - on every output;
+ (3) [PRINT](line) entries carry the line of their statement, also after notes / rests / lengths followed by blank lines; also
+     from inside user functions (FUNCTION F(params) with the '{' on the same or a later line, after blanks and comments; bodies
+     over several lines with nested IF / ELSE / FOR blocks; several functions, several calls) - with a correspondence against the
+     script model (driver `script`, kind compile_script) on those sources;
+ (4) bounds: <= 100 entries, <= 30 + 1 unknown-character entries, log text <= 4096 + 3 characters - on every output; at the
+     limit (k PRINT lines sized so that the joined log text has exactly 4095, 4096, 4097, ... 4096+99, ... characters) the log is
+     the joined text when that has <= 4096 characters and its first 4096 characters + "..." otherwise;
  (5) everything after End / END is ignored (bytes and log of the prefix program);
  (6) silence: with debug 0 the harness process prints nothing on stdout for any of these cases."""
 import json, os, re
@@ -21,7 +26,7 @@ COQ_TARGET = "props/C19.v"
 THEOREMS = ["C19_constants", "C19_log_bound", "C19_lex_log_bound", "C19_lex_error_cap", "C19_log_chars", "C19_unknown_char_step",
             "C19_unknown_ascii", "C19_unknown_word_step", "C19_syntax_error_entry", "C19_end", "C19_line_counter",
             "C19_only_layout_and_errors", "C19_unguarded_prints"]
-DRIVERS = ["core"]
+DRIVERS = ["core", "script"]
 RULE = ("valid programs (the command trees and random layouts of the C18 generator, 2..14 top-level commands over several lines) with "
         "0..8 offenders (every unknown ASCII character, some non-ASCII ones, unknown words Foo / XYZ1 / Abc_d / Zz) and 0..6 PRINT probes "
         "inserted at random top-level boundaries; End/END followed by arbitrary text; stress sources for the bounds (200 unknown "
@@ -285,6 +290,235 @@ def run_generated(ctx, n):
             ctx.dist["model_agrees"] = ctx.dist.get("model_agrees", 0) + 1
 
 
+def boundary_program(rng, k, total, tail="c d e"):
+    """k lines `PRINT({aaa..})` (line i gives the entry `[PRINT](i) aaa..`) whose payload lengths are chosen so that the JOINED
+    log text (entries + k-1 line breaks) has exactly `total` characters; returns (source, joined log text) or None"""
+    fixed = sum(10 + len(str(i)) for i in range(k)) + (k - 1)      # "[PRINT](" i ") " per entry, and the separators
+    pay = total - fixed
+    if pay < k:
+        return None
+    cuts = sorted(rng.sample(range(1, pay), k - 1)) if k > 1 else []
+    sizes = [b - a for a, b in zip([0] + cuts, cuts + [pay])]
+    letters = "abcdefgxyz"
+    texts = [rng.choice(letters) * n for n in sizes]
+    src = "".join("PRINT({%s})\n" % t for t in texts) + tail
+    joined = "\n".join("[PRINT](%d) %s" % (i, t) for i, t in enumerate(texts))
+    assert len(joined) == total
+    return src, joined
+
+
+def expected_log_text(joined):
+    return joined if len(joined) <= 4096 else joined[:4096] + "..."
+
+
+def run_boundary(ctx):
+    """(4b) get_logs_str at its limit: joined log text of exactly 4096-1, 4096, 4096+1, ... characters"""
+    rng = ctx.rng
+    cases = []
+    ks = [2, 3, 10, 50, 99, 100] + [rng.randrange(2, 101) for _ in range(6 if ctx.tier == "quick" else 60)]
+    for k in ks:
+        totals = [4095, 4096, 4097, 4096 + 50, 4096 + 99, 4096 + 100, 4096 + k - 1, 4096 + k] + \
+                 [rng.randrange(4000, 4300) for _ in range(3)] + [rng.randrange(4097, 4196) for _ in range(3)]
+        for t in totals:
+            bp = boundary_program(rng, k, t, rng.choice(["c d e", "", "c"]))
+            if bp:
+                cases.append(bp)
+    lines = [case_line(kind, src) for src, _ in cases for kind in ("compile", "lex")]
+    buf = []
+    got = ctx.impl(lines, stall=30, capture_stdout=buf)
+    silent(ctx, lines, buf, "log-limit sources")
+    for j, (src, joined) in enumerate(cases):
+        want = expected_log_text(joined)
+        for d, kind in ((0, "compile"), (1, "lex")):
+            g = got[2 * j + d].split("\t")
+            ctx.count("log_limit", src if d == 0 else None)
+            check_bounds(ctx, src, got[2 * j + d], kind)
+            have = vlib.dec_text(g[1]) if len(g) > 1 else got[2 * j + d]
+            if have != want:
+                ctx.oracle_fail("get_logs_str at its limit: a joined log text of %d characters must come back %s (%s)" % (
+                                    len(joined), "unchanged" if len(joined) <= 4096 else "as its first 4096 characters + '...'", kind),
+                                lines[2 * j + d], "%d characters, ends with %r" % (len(have), have[-12:]),
+                                "%d characters, ends with %r" % (len(want), want[-12:]), input_text=src)
+
+
+S0, S1 = "\ue000", "\ue001"      # private-use sentinels around an offender while a source is being built
+
+
+class FuncSrc:
+    """builds a source with user functions; records, at generation time, the 0-based line of every offender and of every
+    PRINT statement, and the order in which the PRINT statements execute"""
+    def __init__(self, rng):
+        self.rng, self.parts, self.line, self.errs, self.uid = rng, [], 0, [], 1000
+        self.vars = ["I", "J", "K", "L", "N", "II", "JJ", "KK", "Cnt", "Idx"]     # not M: reserved
+
+    def add(self, x):
+        self.parts.append(x)
+        self.line += x.count("\n")
+
+    def sep(self):
+        self.add(self.rng.choice(["\n", "\n", "\n\n", " ", ";\n", "\n  ", "\n// x\n", "\r\n"]))
+
+    def offender(self, allow_brace):
+        rng = self.rng
+        if rng.random() < 0.7:
+            t = rng.choice([c for c in UNKNOWN_ASCII if c != "~" and (allow_brace or c != "}")])
+            kind = "ch"
+        else:
+            t, kind = rng.choice(WORDS), "word"
+        self.add(";")
+        self.errs.append((kind, t, self.line))
+        self.add(S0 + t + S1 + ";")
+
+    def stmts(self, depth, has_a, top):
+        rng, ops = self.rng, []
+        for _ in range(rng.randrange(1, 5)):
+            k = rng.random()
+            gap = rng.choice(["", "", " ", "  "])
+            if k < 0.30:
+                ops.append(("p", self.line, str(self.uid)))
+                self.add("PRINT(%d)" % self.uid)
+                self.uid += 1
+            elif k < 0.38 and has_a:
+                ops.append(("pa", self.line))
+                self.add("PRINT(A)")
+            elif k < 0.55:
+                self.offender(top)
+            elif k < 0.70 or depth == 0 or not self.vars:
+                self.add(rng.choice(["c", "d4", "r8", "e", "l8", "o5", "c d e"]))
+            elif k < 0.80:
+                self.add("IF(1==1)" + gap + "{")
+                self.sep()
+                ops += self.stmts(depth - 1, has_a, False)
+                self.add("}")
+            elif k < 0.90:
+                self.add("IF(1==0)" + gap + "{")
+                self.sep()
+                self.stmts(depth - 1, has_a, False)        # never executed; its offenders are still reported by the lexer
+                self.add("}" + rng.choice(["", " ", "\n", "\n\n  "]) + "ELSE" + gap + "{")
+                self.sep()
+                ops += self.stmts(depth - 1, has_a, False)
+                self.add("}")
+            else:
+                v = self.vars.pop()
+                self.add("FOR(INT %s=0;%s<2;%s++)%s{" % (v, v, v, gap))
+                self.sep()
+                ops.append(("loop", 2, self.stmts(depth - 1, has_a, False)))
+                self.add("}")
+            self.sep()
+        return ops
+
+    def texts(self):
+        t = "".join(self.parts)
+        return t.replace(S0, "").replace(S1, ""), re.sub(S0 + ".*?" + S1, "", t, flags=re.S)
+
+
+def run_ops(ops, a, out):
+    for op in ops:
+        if op[0] == "p":
+            out.append("[PRINT](%d) %s" % (op[1], op[2]))
+        elif op[0] == "pa":
+            out.append("[PRINT](%d) %s" % (op[1], a))
+        else:
+            for _ in range(op[1]):
+                run_ops(op[2], a, out)
+
+
+GAPS_F = ["", " ", "\n", "\n", "\n\n", " \n  ", "\n\n\n", "\n// x\n", " /* y\n */ ", "\n\n /* a */ // b\n  ", "\r\n", "\t\n\t"]
+
+
+def gen_function_case(rng):
+    fb = FuncSrc(rng)
+    fb.add(rng.choice(["", "", "\n", "\n\n// top\n", "c d\n", "/* x\n y */\n", "l8 o5 // z\n"]))
+    funcs = []
+    for name in rng.sample(["FOO", "BAR", "Fnc", "MyFunc", "Riff2"], rng.choice([1, 1, 2])):
+        params = rng.choice(["()", "(A)", "(A)", "(A,B)", "(A, B)"])
+        fb.add("FUNCTION %s%s" % (name, params))
+        fb.add(rng.choice(GAPS_F))
+        fb.add("{")
+        fb.add(rng.choice(["\n", "\n", " ", "\n  ", "\n\n", ""]))
+        ops = fb.stmts(rng.choice([0, 1, 1, 2]), "A" in params, False)
+        fb.add("}")
+        fb.add(rng.choice(["\n", "\n\n", " ", "\n// e\n"]))
+        funcs.append((name, params, ops))
+    prints, arg = [], 7000
+    for _ in range(rng.randrange(1, 6)):
+        k = rng.random()
+        if k < 0.6:
+            name, params, ops = rng.choice(funcs)
+            arg += 1
+            n_par = 0 if params == "()" else params.count(",") + 1
+            fb.add("%s(%s)" % (name, ",".join([str(arg), "1"][:n_par])))
+            run_ops(ops, str(arg), prints)
+        elif k < 0.75:
+            prints.append("[PRINT](%d) %d" % (fb.line, fb.uid))
+            fb.add("PRINT(%d)" % fb.uid)
+            fb.uid += 1
+        elif k < 0.88:
+            fb.offender(True)
+        else:
+            fb.add(rng.choice(["c", "d4", "r8"]))
+        fb.add(rng.choice(["\n", "\n\n", ";", " ", ";\n"]))
+    dirty, clean = fb.texts()
+    return dirty, clean, fb.errs, prints
+
+
+def run_functions(ctx, n):
+    """(3b) line numbers inside user functions: FUNCTION F(params) with the '{' on the same line, on a later line, after blanks
+    and comments; bodies over several lines with PRINT statements, offenders, notes and nested IF / ELSE / FOR blocks; one or two
+    functions, called several times.  Expected line = 0-based source line of the statement / offender."""
+    rng = ctx.rng
+    cases = []
+    while len(cases) < n:
+        c = gen_function_case(rng)
+        if len(c[2]) <= 25 and len(c[2]) + len(c[3]) < 90:
+            cases.append(c)
+    lines = []
+    for dirty, clean, errs, prints in cases:
+        for kind in ("compile", "lex"):
+            lines.append(case_line(kind, dirty))
+            lines.append(case_line(kind, clean))
+    buf = []
+    got = ctx.impl(lines, stall=20, capture_stdout=buf)
+    silent(ctx, lines, buf, "user functions")
+    for j, (dirty, clean, errs, prints) in enumerate(cases):
+        for d, kind in ((0, "compile"), (2, "lex")):
+            gd, gc = got[4 * j + d].split("\t"), got[4 * j + d + 1].split("\t")
+            ctx.count("functions:" + kind, dirty if d == 0 and dirty.count("\n") >= 3 and prints else None)
+            check_bounds(ctx, dirty, got[4 * j + d], kind)
+            if len(gd) < 2 or len(gc) < 2:
+                ctx.oracle_fail("a source with user functions does not compile (%s)" % kind, lines[4 * j + d], got[4 * j + d][:80], "bytes and a log", input_text=dirty)
+                continue
+            if gd[0] != gc[0]:
+                ctx.oracle_fail("offenders inside / around user functions change the MIDI bytes (%s)" % kind, lines[4 * j + d],
+                                gd[0][-160:], gc[0][-160:], input_text=dirty)
+                continue
+            logd, logc = split_log(vlib.dec_text(gd[1])), split_log(vlib.dec_text(gc[1]))
+            k = len(errs)
+            ok = logd[k:] == prints and logc == prints and len(logd) == k + len(prints)
+            want = []
+            for (okind, t, line), e in zip(errs, logd[:k]):
+                m = (ERR_CH if okind == "ch" else ERR_WORD).match(e)
+                if not m or int(m.group(1)) != line or m.group(2) != t:
+                    ok = False
+            for okind, t, line in errs:
+                want.append('[ERROR](%d) %s "%s" near ...' % (line, "Unknown Character:" if okind == "ch" else "Syntax Error", t))
+            if not ok:
+                ctx.oracle_fail("line numbers of [ERROR] / [PRINT] entries from user function bodies (%s): the line of the statement in the "
+                                "source is expected" % kind, lines[4 * j + d], "\n".join(logd)[:700], "\n".join(want + prints)[:700], input_text=dirty)
+        if len(ctx.samples) < 9 and prints and errs:
+            ctx.sample({"source": dirty[:400], "log": vlib.dec_text(got[4 * j].split("\t")[1])[:400] if "\t" in got[4 * j] else ""})
+    # correspondence with the script model (coq/model/Script.v lexes FUNCTION): bytes and the whole log
+    sub = [(c[0], got[4 * j + 2]) for j, c in enumerate(cases) if len(c[0]) < 500]
+    mod = ctx.model(["compile_script\t%s" % vlib.enc_text(s) for s, _ in sub], driver="script")
+    for (s, g), m in zip(sub, mod):
+        if m.startswith("UNSUPPORTED") or m.startswith("OUTOFFUEL"):
+            ctx.unsupported += 1
+        elif m != g:
+            ctx.disagree("compile_script (script model) on a source with user functions: bytes and log", s, g[-400:], m[-400:])
+        else:
+            ctx.dist["script_model_agrees"] = ctx.dist.get("script_model_agrees", 0) + 1
+
+
 def run_corpus(ctx):
     p = os.path.join(vlib.VERIF, "corpus", "C19.jsonl")
     if not os.path.exists(p):
@@ -301,9 +535,21 @@ def run_corpus(ctx):
         g, gc = got[2 * i].split("\t"), got[2 * i + 1].split("\t")
         ctx.count("corpus", o["src"])
         check_bounds(ctx, o["src"], got[2 * i], "compile")
+        if o.get("pending") and not any(k.get("input") == o["src"] for k in ctx.known):
+            # reported to the lead, not yet repaired nor registered in known_findings.json: recorded in the evidence notes; removing
+            # the "pending" flag makes the entry strict
+            have = split_log(vlib.dec_text(g[1])) if len(g) > 1 else []
+            key = "pending_finding_still_fails" if have != o.get("log") else "pending_finding_now_passes"
+            ctx.dist[key] = ctx.dist.get(key, 0) + 1
+            ctx.notes.append("REPORTED, PENDING: %r logs %r, expected %r - %s" % (o["src"], have, o.get("log"), o.get("why", "")))
+            continue
         if "same_bytes_as" in o and g[0] != gc[0]:
             ctx.oracle_fail("the offender changes the music: %s" % o.get("why", ""), lines[2 * i], "%r -> %s" % (o["src"], g[0][-160:]),
                             "%r -> %s" % (o["same_bytes_as"], gc[0][-160:]), input_text=o["src"])
+        if "log_text" in o and len(g) > 1 and vlib.dec_text(g[1]) != o["log_text"]:
+            have = vlib.dec_text(g[1])
+            ctx.oracle_fail("log text: %s" % o.get("why", ""), lines[2 * i], "%d characters, ends with %r" % (len(have), have[-12:]),
+                            "%d characters, ends with %r" % (len(o["log_text"]), o["log_text"][-12:]), input_text=o["src"])
         if "log" in o and len(g) > 1:
             log = split_log(vlib.dec_text(g[1]))
             if log != o["log"]:
@@ -438,6 +684,8 @@ def run_fixed(ctx):
 def run(ctx):
     run_corpus(ctx)
     run_fixed(ctx)
+    run_boundary(ctx)
+    run_functions(ctx, 250 if ctx.tier == "quick" else 8000)
     run_generated(ctx, 700 if ctx.tier == "quick" else 15000)
 
 
